@@ -7,7 +7,7 @@
 (* Every explored Return transition is printed as an operation script      *)
 (* (a "vector") and replayed through the real parser by the harness.       *)
 (***************************************************************************)
-EXTENDS Netflow, Json
+EXTENDS Netflow, Json, Cmp
 
 CONSTANTS MaxChain, CutMode
 
@@ -109,24 +109,7 @@ FilterInv ==
               ((o.out[j].kind = "UnknownVersion") <=>
                  (Len(o.out[j].rem) >= 2 /\ U16At(o.out[j].rem, 1) \in o.allow \ Known))
 
-\* C14, with "truncated" decided from the packet's own header only (no templates, no step functions)
-V9Cut(b, pos) ==
-  LET step(acc, i) ==
-        IF acc.done THEN acc
-        ELSE IF acc.budget = 0 \/ Avail(b, acc.pos) = 0 THEN [acc EXCEPT !.done = TRUE]
-        ELSE IF Avail(b, acc.pos) < 4 \/ Avail(b, acc.pos) < Max2(U16At(b, acc.pos + 2), 4)
-               THEN [acc EXCEPT !.done = TRUE, !.cut = TRUE]
-        ELSE [acc EXCEPT !.pos = acc.pos + Max2(U16At(b, acc.pos + 2), 4), !.budget = acc.budget - 1]
-  IN IF Avail(b, pos) < 20 THEN TRUE
-     ELSE FoldLeft(step, [pos |-> pos + 20, budget |-> U16At(b, pos + 2), done |-> FALSE, cut |-> FALSE],
-                   Range1(Avail(b, pos) \div 4 + 1)).cut
-TruncatedAt(b, pos) ==
-  /\ Avail(b, pos) >= 2
-  /\ LET v == U16At(b, pos) IN
-     CASE v \in {5, 7} -> Avail(b, pos) < 4 \/ Avail(b, pos) < FixedWire(v, U16At(b, pos + 2))
-       [] v = 10       -> Avail(b, pos) < 4 \/ Avail(b, pos) < Max2(U16At(b, pos + 2), 16)
-       [] v = 9        -> V9Cut(b, pos)
-       [] OTHER        -> FALSE
+\* C14: TruncatedAt (module Cmp) decides "truncated" from the packet's own header only (no templates, no step functions)
 TruncInv ==
   Done =>
     LET o == Obs  n == Len(o.out)
